@@ -379,4 +379,23 @@ def scalar_requests(rng, thorough):
         # the D6 cell for every signed type: MIN %= 2^(N-1)
         if sg:
             out.append("C03 s.rem_assign_u %s:%d %s" % (t, mn, wu(1 << (bits - 1))))
+    # two-digit scalar divisors (u128 / i128) on the windows of Knuth's algorithm D that exercise its rare branches
+    # (a0 == b0, both corrections of the 3-by-2 refinement, add-back, maximal / zero quotient digits): a dedicated
+    # two-digit routine behind the scalar forms has to get exactly these right (C10-x1: quotient digit MAX without
+    # refinement when the remainder's top digit equals the divisor's)
+    kinds2 = ["maxlow", "corr", "corr2", "b1zero", "min", "allmax", "rand"]
+    k = 0
+    for tag, a, b in core_pairs(rng, 2, kinds2):
+        for sh in ((0, 1, 37) if thorough else (0, rng.choice([1, 5, 63]))):
+            d, aa = b >> sh, a >> sh
+            if d < (1 << 64):
+                continue
+            k += 1
+            ops = ["div_s", "rem_s", "div_assign_s", "rem_assign_s"]
+            for op in (ops if thorough else [ops[k % 4], ops[(k + 1) % 4]]):
+                out.append("C03 u.%s %s u128:%d" % (op, wu(aa), d))
+                sa = -aa if k % 3 == 0 else aa
+                out.append("C03 i.%s %s u128:%d" % (op, wi(sa), d))
+                if d < (1 << 127):
+                    out.append("C03 i.%s %s i128:%d" % (op, wi(sa), d if k % 2 else -d))
     return out
